@@ -239,6 +239,12 @@ func (e *Exec) topEnv(st *State, fr *Frame, res []Value, post bool) *SpecEnv {
 
 func (e *Exec) finishPath(st *State, fr *Frame, res []Value, pos token.Pos, panicked bool) {
 	e.pathsDone++
+	if e.top.contract != nil {
+		// vacuity guard: the assumptions accumulated along this path must not be contradictory
+		o := &Obligation{Name: fnKey(e.fn) + "/vacuity:path-feasible#" + st.pathID, Group: fnKey(e.fn) + "/vacuity:path-feasible", Kind: "vacuity", Func: fnKey(e.fn),
+			Lines: st.script.lines(), Goal: False, ExpectSat: true, Text: "the assumptions along this path are consistent", Pos: e.eng.posString(pos), Path: append([]string(nil), st.pcs...)}
+		e.obls = append(e.obls, o)
+	}
 	c := e.top.contract
 	if lockSig(st) != e.top.entryLocks {
 		e.oblige(st, "lock", "balance", False, pos, []string{"C18"}, "locks held at return differ from locks held at entry: "+lockSig(st)+" vs "+e.top.entryLocks)
@@ -269,6 +275,7 @@ func (e *Exec) finishPath(st *State, fr *Frame, res []Value, pos token.Pos, pani
 		}
 		e.oblige(st, kind, name, t, pos, cl.Tags, cl.Text)
 	}
+	e.traceFrame(st, c, pos)
 	if panicked {
 		return
 	}
@@ -414,5 +421,39 @@ func zeroSliceOffsets(v *Value) {
 			}
 			v.L[i] = Zero
 		}
+	}
+}
+
+var neutralEvents = map[string]bool{"Lock": true, "Unlock": true, "WgAdd": true, "WgDone": true, "WgWait": true, "Go": true, "Select": true, "TimeAfter": true, "Recv": true}
+
+// traceFrame: every event produced on this path is one the contract declares
+// (emits / may_emit), so callers can rely on "none(E)" for undeclared events.
+func (e *Exec) traceFrame(st *State, c *FuncContract, pos token.Pos) {
+	allowed := map[string]bool{}
+	for _, n := range c.MayEmit {
+		allowed[n] = true
+	}
+	if allowed["*"] {
+		return
+	}
+	for _, em := range c.Emits {
+		allowed[em.Name] = true
+	}
+	bad := map[string]bool{}
+	for _, ev := range st.trace {
+		if ev.MayLoop != nil {
+			for _, n := range ev.MayLoop {
+				if !allowed[n] && !neutralEvents[n] {
+					bad[n] = true
+				}
+			}
+			continue
+		}
+		if !allowed[ev.Name] && !neutralEvents[ev.Name] {
+			bad[ev.Name] = true
+		}
+	}
+	if len(bad) > 0 {
+		e.oblige(st, "trace-frame", strings.Join(sortedKeys(bad), ","), False, pos, nil, "events not declared by may_emit/emits: "+strings.Join(sortedKeys(bad), ", "))
 	}
 }
